@@ -2,7 +2,7 @@
    harness observes of the Go run. *)
 From Coq Require Import List ZArith Bool.
 From Verif Require Spec.Visited Spec.Rules Spec.Walk.
-From Verif Require Import Base.Sx Base.GoVal Base.F64 Schema.Ast Schema.Pipeline Schema.Simple Schema.Draft4 Schema.Classes Schema.Helpers Schema.Post Schema.AgreementDec Schema.PipelineTermDec.
+From Verif Require Import Base.Sx Base.GoVal Base.F64 Schema.Ast Schema.Pipeline Schema.Simple Schema.Draft4 Schema.Classes Schema.Helpers Schema.Post Schema.AgreementDec Schema.PipelineTermDec Schema.SimpleAgree Schema.SimpleAgreeDec.
 Import ListNotations.
 Open Scope Z_scope.
 
@@ -116,6 +116,21 @@ Definition run_simple (s : sx) : sx :=
       | Some orc, Some root, Some data =>
           of_outcome (fun o => match o with None => L [A 0; L []] | Some r => L [A 0; L [of_res r]] end)
                      (simple_validate orc flocq_ops root data)
+      | _, _, _ => sx_err
+      end
+  | _ => sx_err
+  end.
+
+(* the same case against the declarative reading (Schema/SimpleAgree.v): (inside the proved class?, verdict of the reading) *)
+Definition run_simple_frag (s : sx) : sx :=
+  match s with
+  | L [orc; root; data] =>
+      match get_oracles orc, get_sroot root, get_goval data with
+      | Some orc, Some root, Some data =>
+          let q := sr_simple root in
+          L [ ofBool (qclean_b orc flocq_ops f_finite (q_format q) q && jd_b f_finite false true (S (goval_depth data)) data &&
+                      qfits_b flocq_ops q data);
+              ofBool (root_spec orc flocq_ops root data) ]
       | _, _, _ => sx_err
       end
   | _ => sx_err
